@@ -495,6 +495,167 @@ pub fn run(tier: &str, seed: u64, s: &mut Sink) {
             emit(s, "byte-change", &q);
         }
     }
+    // --- every multi-bit field of an ACCEPTED packet with each single bit set: 2^k, 2^k - 1, 2^k + 1
+    let around = |k: u32, max: u64| -> Vec<u64> {
+        let b = 1u64 << k;
+        let mut v = vec![b, b - 1];
+        if b < max {
+            v.push(b + 1);
+        }
+        v.into_iter().filter(|x| *x <= max).collect()
+    };
+    for (field, bits, max) in [
+        ("delay", 16u32, 0xFFFFu64),
+        ("ts", 48, (1u64 << 48) - 1),
+        ("last", 10, 511),
+        ("req", 10, 511),
+        ("counter", 32, u32::MAX as u64),
+        ("fifo", 16, 0xFFFF),
+        ("wd", 8, 255),
+        ("rd", 8, 255),
+    ] {
+        for k in 0..bits {
+            for v in around(k, max) {
+                let mut p = small_valid(&mut r, &macs);
+                match field {
+                    "delay" => p.delay = v as u16,
+                    "ts" => p.ts = v,
+                    "last" => p.last = v as u16,
+                    "req" => {
+                        p.req = v as u16;
+                        // large counts: keep one or two channels so that the packet stays small
+                        if v > 64 {
+                            p.sent = (1u128 << r.below(79)) | (1u128 << r.below(79));
+                        }
+                        p.fill(&mut r);
+                    }
+                    "counter" => p.counter = v as u32,
+                    "fifo" => p.fifo = v as u16,
+                    "wd" => p.wd = v as u8,
+                    _ => p.rd = v as u8,
+                }
+                emit(s, "field-single-bit", &p.bytes());
+            }
+        }
+    }
+    // both masks: every single bit, and every bit together with its neighbours / with the top legal bit
+    for k in 0..79u32 {
+        let mut p = small_valid(&mut r, &macs);
+        p.over = 1u128 << k;
+        emit(s, "field-single-bit", &p.bytes());
+        let mut p = small_valid(&mut r, &macs);
+        p.over = (1u128 << k) | (1u128 << 78) | ((1u128 << k) - 1);
+        emit(s, "field-single-bit", &p.bytes());
+        let req = r.pick(&[0u16, 1, 2, 5]);
+        let m = (1u128 << k) | (1u128 << 78) | (if k > 0 { 1u128 << (k - 1) } else { 0 });
+        let p = valid_with(&mut r, &macs, m, req);
+        emit(s, "field-single-bit", &p.bytes());
+    }
+    // samples: every single bit of an i16 at the first / last / a middle position of a block
+    for k in 0..16u32 {
+        for d in [0i32, -1, 1] {
+            let mut p = small_valid(&mut r, &macs);
+            if p.req == 0 {
+                p.req = 5;
+                p.fill(&mut r);
+            }
+            let v = ((1i32 << k) + d) as u16 as i16;
+            let nb = p.blocks.len();
+            let n = p.req as usize;
+            p.blocks[0].samples[0] = v;
+            p.blocks[nb - 1].samples[n - 1] = v;
+            p.blocks[nb / 2].samples[n / 2] = v;
+            emit(s, "field-single-bit", &p.bytes());
+        }
+    }
+    // --- an invalid element FOLLOWED (and preceded) by plenty of valid data: many blocks, defect early
+    for _ in 0..(if thorough { 600 } else { 120 }) {
+        let nch = r.range(8, 30) as usize;
+        let mut m = 0u128;
+        while (m.count_ones() as usize) < nch {
+            m |= 1u128 << r.below(79);
+        }
+        let req = r.pick(&[1u16, 2, 3, 4, 7]);
+        let mut p = valid_with(&mut r, &macs, m, req);
+        let at = match r.below(3) {
+            0 => 0,
+            1 => 1,
+            _ => r.below(nch as u64 / 2) as usize,
+        };
+        let label = match r.below(8) {
+            0 => {
+                p.blocks[at].index += 1;
+                "defect-then-valid"
+            }
+            1 => {
+                p.blocks[at].index -= 1;
+                "defect-then-valid"
+            }
+            2 => {
+                p.blocks[at].size ^= 1 << r.below(10);
+                "defect-then-valid"
+            }
+            3 => {
+                p.blocks[at].pad = if req % 2 == 1 { r.pick(&[[0u8, 1], [128, 0]]).to_vec() } else { vec![0, 0] };
+                "defect-then-valid"
+            }
+            4 => {
+                p.blocks.swap(at, at + 1);
+                "defect-then-valid"
+            }
+            5 => {
+                p.blocks.remove(at);
+                "defect-then-valid"
+            }
+            6 => {
+                let b = p.blocks[at].clone();
+                p.blocks.insert(at, b);
+                "defect-then-valid"
+            }
+            _ => "many-blocks-valid",
+        };
+        emit(s, label, &p.bytes());
+    }
+    // header defect followed by a long valid body
+    for k in [0u64, 1, 2, 3, 4, 6, 7, 12, 13] {
+        let mut m = 0u128;
+        while m.count_ones() < 20 {
+            m |= 1u128 << r.below(79);
+        }
+        let base = valid_with(&mut r, &macs, m, 6);
+        emit(s, "header-defect-long-body", &perturb(&mut r, &base, k));
+    }
+    // --- length-like field: header count N, block size field s, a samples actually present, N-1 <= s, a <= N+1
+    for n in [0i32, 1, 2, 3, 4, 5, 510, 511] {
+        for ds in [-1i32, 0, 1] {
+            for da in [-1i32, 0, 1] {
+                for pad_by_actual in [false, true] {
+                    let (sz, act) = (n + ds, n + da);
+                    if sz < 0 || act < 0 {
+                        continue;
+                    }
+                    let nch = if n > 100 { 2 } else { r.range(1, 4) as usize };
+                    let mut m = 0u128;
+                    while (m.count_ones() as usize) < nch {
+                        m |= 1u128 << r.below(79);
+                    }
+                    let mut p = valid_with(&mut r, &macs, m, n as u16);
+                    // all blocks, or only the first one
+                    let only_first = r.chance(1, 3);
+                    for (i, b) in p.blocks.iter_mut().enumerate() {
+                        if only_first && i > 0 {
+                            continue;
+                        }
+                        b.size = sz as u16;
+                        b.samples = samples(&mut r, act as usize);
+                        let odd = if pad_by_actual { act % 2 == 1 } else { n % 2 == 1 };
+                        b.pad = if odd { vec![0, 0] } else { vec![] };
+                    }
+                    emit(s, "count-vs-units", &p.bytes());
+                }
+            }
+        }
+    }
     // --- lengths 0..=140 (prefix of a valid packet, zero-extended; random with a valid-looking start)
     let mut base = valid_with(&mut r, &macs, 0b1001, 9);
     base.over = 0b1000;
